@@ -381,7 +381,8 @@ def mbx_recv_contract():
 # The other half of the transport: Terminal.mbx_send against the send mailbox
 # (sync manager 0, mailbox mode, ETG.1000.4): the terminal takes the mail when
 # the LAST byte of the mailbox is written; until then writes land in its
-# memory, afterwards (mailbox full) they are ignored.  Ghost: the accepted
+# memory, afterwards (mailbox full) they are rejected (working counter 0, i.e.
+# EtherCatError at the caller).  Ghost: the accepted
 # writes so far - `out_mail` (offset, bytes) of the first one, `out_full`,
 # `out_clobbered` (a later accepted write overlaps the first one's bytes).
 class MbxOutBus(Contract_):
@@ -412,6 +413,11 @@ class MbxOutBus(Contract_):
         off = lift_int(offset)
         last = lift_int(t.fields["mbx_out_off"]) + lift_int(t.fields["mbx_out_sz"]) - 1
         full = g.get("out_full", z3.BoolVal(False))
+        if ex.fork(full, "write to a full send mailbox"):
+            # the sync manager rejects it: the datagram comes back with working
+            # counter 0, which the master reports as EtherCatError (C12)
+            raise PyRaise(ex.make_exc(EtherCatError, "datagram was not processed"))
+        full = z3.BoolVal(False)
         if "out_mail" not in g:
             g["out_mail"] = (Sym(off, INT) if not isinstance(offset, int) else offset, payload)
         else:
